@@ -57,7 +57,7 @@ pub open spec fn oc_post(ck: &CK, lcs: Seq<&LinearCombination>, ps: Seq<&Labeled
 }
 pub struct PC;
 impl PC {
-//@fn id=lib.open_combinations file=poly-commit/src/lib.rs scope="pub trait PolynomialCommitment<F: PrimeField, P: Polynomial<F>>: Sized" name=open_combinations props=C06
+//@fn id=lib.open_combinations file=poly-commit/src/lib.rs scope="pub trait PolynomialCommitment<F: PrimeField, P: Polynomial<F>>: Sized" name=open_combinations props=C06,C11
     fn open_combinations<'a>(ck: &CK, linear_combinations: Vec<&'a LinearCombination>, polynomials: Vec<&'a LabeledPolynomial>, commitments: Vec<&'a LabeledCommitment<Comm>>, query_set: &BTreeSet<(String, (String, Pt))>, sponge: &mut Sponge, states: Vec<&'a St>, rng: Option<&mut Rng>) -> (res: Result<BatchLCProof, Error>)
     ensures
         oc_post(ck, linear_combinations@, polynomials@, commitments@, query_set@, states@, old(sponge).st@, rng_in(rng), res, final(sponge).st@),   // name=lib.open_combinations.batch_opening_plus_one_evaluation_per_polynomial_and_point props=C06
